@@ -53,9 +53,12 @@ import (
 //
 // While a finding is listed as open its shape is excluded/tolerated and
 // counted; otherwise it fails the property.
+//
+// The identifiers below are PLACEHOLDERS until the findings are registered in
+// /verif/known_findings.json; replace them by the assigned ids.
 const (
-	findingLastHang = "F7"
-	findingPrevSkip = "F8"
+	findingLastHang = "C11-CURSOR-LAST-HANG"
+	findingPrevSkip = "C11-CURSOR-PREV-SKIP"
 )
 
 func thorough() bool { return os.Getenv("VERIF_TIER") == "thorough" }
